@@ -477,6 +477,26 @@ def c09(report, rng, tier, findings):
                 case['cond'] = rest or None
                 case['domq'] = {v0: [subst_var(c, v0, 60 + v0) for c in own]}
                 case['explicit'] = twin
+        elif rng.random() < 0.45:
+            # the first variable is declared WITHOUT a domain, by keywords only (`T(a=1)`): it ranges over every instance
+            # of its class and its constraints are attached lazily, during the evaluation; the explicit twin ranges over
+            # all objects and carries the equality as a condition
+            v0, cls0, _ = case['vars'][0]
+            all_objs = [('o', j) for j, _, _ in case['objs']]
+            lit = ('i', rng.randint(0, 2))
+            kws = [('a', ('lit', lit))] if rng.random() < 0.8 else []
+            eqs = [('cmp', 'eq', ('attr', 'a', ('var', v0)), ('lit', lit))] if kws else []
+            twin = dict(case)
+            twin['vars'] = [(v0, cls0, all_objs)] + list(case['vars'][1:])
+            twin['cond'] = eqs + list(case['cond'])
+            case = dict(case)
+            case['vars'] = twin['vars']
+            case['pform'] = {v0: {'pos': [], 'kw': kws}}
+            case['nodom'] = [v0]
+            case['explicit'] = twin
+        if rng.random() < 0.35:
+            case = dict(case)
+            case['nested_eval'] = True
         if quant == 'the':
             try:
                 k = len(surface.Oracle(case.get('explicit', case)).rows())
@@ -488,6 +508,9 @@ def c09(report, rng, tier, findings):
     report.rule = ("random an/the queries that use @predicate functions and Predicate subclasses (with negation, conjunction, "
                    "disjunction), each evaluated OUTSIDE any block, inside symbolic_mode() and inside rule_mode(), caching on and "
                    "off, twice; every outcome is compared with the oracle (so the three ambient modes agree with each other); "
+                   "40% take the first variable's domain from a sub-query, 25% declare it without a domain by keywords only "
+                   "(constraints attached lazily during evaluation), in 35% every predicate body runs a nested evaluate() and "
+                   "constructs / calls a Predicate subclass concretely (must be ordinary Python whatever the ambient mode); "
                    "rule inference under the three ambient modes is exercised by the C11 check; non-trivial = every case (each "
                    "contains a predicate)")
     judge = QueryJudge(report, findings, 'C09',
@@ -495,7 +518,10 @@ def c09(report, rng, tier, findings):
                        else canon(res['spec'], case))
     for c in cases:
         report.count('quant_' + c['quant'])
-        report.count('domain_from_subquery' if c.get('domq') else 'plain_domain')
+        report.count('domain_from_subquery' if c.get('domq') else 'no_domain_keywords_only' if c.get('nodom')
+                     else 'plain_domain')
+        if c.get('nested_eval'):
+            report.count('predicate_bodies_run_a_nested_evaluation')
     run_query_cases(report, cases, {'caching': (False, True), 'evals': 2, 'ambients': (None, 'query', 'rule')}, judge)
     return ['EqlModel.Props.C09', 'EqlModel.Props.C08'], [
         "the mode is read only by the patched constructors / predicate wrappers (hybrid_new, predicate.wrapper)",
@@ -621,18 +647,22 @@ def c17(report, rng, tier, findings):
                 cond = ('not', cond)
             case = {'sel': [('var', 1)], 'cond': [cond], 'entity': True, 'vars': [(0, 'A', praw), (1, 'B', oraw)]}
         case.update({'id': f'c{i}', 'classes': [('A', '-'), ('B', '-')], 'objs': objs, 'quant': 'an', 'kind': kind})
+        if rng.random() < 0.4:
+            case['pre_take'] = rng.randint(1, 2)       # after an evaluation of the same query abandoned at its k-th row
+            report.count('after_an_abandoned_evaluation')
         cases.append(case)
     report.rule = ("1-5 parents (empty, overlapping, repeated, scalar inner collections); concatenate(p.items) evaluated alone (the "
                    "single value compared as a SEQUENCE) and as the container of in_/contains/not_(in_) tests of another variable's "
-                   "attribute, 1-4 outer objects, members and non-members; compared with the oracle; non-trivial = at least two "
-                   "parents with elements")
+                   "attribute, 1-4 outer objects, members and non-members; two evaluations, 40% of the cases after an evaluation of "
+                   "the same query that was abandoned at its first or second row; compared with the oracle; non-trivial = at "
+                   "least two parents with elements")
 
     def nontriv(case, res):
         return sum(1 for _, c, a in case['objs'] if c == 'A' and a['items'] != ('l',)) >= 2
     judge = QueryJudge(report, findings, 'C17', nontrivial=nontriv, ordered=True)
     for c in cases:
         report.count('kind_' + c['kind'])
-    run_query_cases(report, cases, {'caching': (False, True), 'evals': 1, 'ordered': True}, judge)
+    run_query_cases(report, cases, {'caching': (False, True), 'evals': 2, 'ordered': True}, judge)
     return ['EqlModel.Props.C17'], ["the parent domain is non-empty in the generated cases (with no parent the single row has no value)",
                                     "membership is tested on an attribute of the outer variable (values), not on the objects themselves"]
 
@@ -779,7 +809,8 @@ def c10(report, rng, tier, findings):
         "non-empty universal domain",
         "the theorem covers conditions whose disjunctions mention the same variables on both sides (every true output binds "
         "all variables of the condition); other shapes: known finding C10-F1",
-        "caching on: covered by correspondence, subject to C05-F1"]
+        "nested for_alls and conjuncts that mention a universal variable free: model + correspondence, no theorem",
+        "caching on: covered by correspondence, subject to C05-F1 / C05-F3"]
 
 
 # ------------------------------------------------------------------------------------------- C13
